@@ -5,7 +5,7 @@ between them.  `Rep N k ws f` (Lemmas.lean): the word array `ws` of a
 `< N` and has every padding bit zero.  Each theorem says: on a represented state and arguments that
 satisfy the documented precondition, the member returns `.ok` (no out-of-range word access, no
 over-wide shift, no failed contract), re-establishes `Rep` (padding included) and computes what
-`std::bitset` specifies.  All of them hold for every `N ≥ 1` and every `k` (word width `2^k`).
+`std::bitset` specifies.  All of them hold for every `N` (`bitset<0>` included) and every `k` (word width `2^k`).
 -/
 import TetlProofs.C17.Observers
 namespace Tetl.C17.Members
@@ -110,13 +110,14 @@ theorem resetAll_rep {N k : Nat} {ws : Words k} {f : Spec.Bits} (h : Rep N k ws 
     simp [Spec.resetAll]
 
 /-- `set()`: the padding bits of the last word stay zero -/
-theorem setAll_rep {N k : Nat} {ws : Words k} {f : Spec.Bits} (hN : 0 < N) (h : Rep N k ws f) :
+theorem setAll_rep {N k : Nat} {ws : Words k} {f : Spec.Bits} (h : Rep N k ws f) :
     ∃ ws', setAll N ws = .ok ws' ∧ Rep N k ws' (Spec.setAll f) := by
-  have hnw := numWords_pos N k hN
   have hlen := h.len
   have hpadd := padding_add N k
   by_cases hp : hasPadding N k = true
-  · obtain ⟨m, hm, hmb⟩ := paddingMaskInv_spec N k hN
+  · have hN := pos_of_hasPadding hp
+    have hnw := numWords_pos N k hN
+    obtain ⟨m, hm, hmb⟩ := paddingMaskInv_spec N k hN
     have hne : ws.length ≠ 0 := by omega
     have hlt : numWords N k - 1 <
         ((ws.take (ws.length - 1)).map (fun _ => ones k) ++ ws.drop (ws.length - 1)).length := by
@@ -166,13 +167,14 @@ theorem setAll_rep {N k : Nat} {ws : Words k} {f : Spec.Bits} (hN : 0 < N) (h : 
       simp [ones, Spec.setAll, hj, this]
 
 /-- `flip()`: the padding bits of the last word are masked off again -/
-theorem flipAll_rep {N k : Nat} {ws : Words k} {f : Spec.Bits} (hN : 0 < N) (h : Rep N k ws f) :
+theorem flipAll_rep {N k : Nat} {ws : Words k} {f : Spec.Bits} (h : Rep N k ws f) :
     ∃ ws', flipAll N ws = .ok ws' ∧ Rep N k ws' (Spec.flipAll f) := by
-  have hnw := numWords_pos N k hN
   have hlen := h.len
   have hpadd := padding_add N k
   by_cases hp : hasPadding N k = true
-  · obtain ⟨m, hm, hmb⟩ := paddingMaskInv_spec N k hN
+  · have hN := pos_of_hasPadding hp
+    have hnw := numWords_pos N k hN
+    obtain ⟨m, hm, hmb⟩ := paddingMaskInv_spec N k hN
     have hlt : numWords N k - 1 < (ws.map (fun word => ~~~word)).length := by simp; omega
     simp only [flipAll, hp, if_true, rd_ok hlt, hm, ok_bind, wr_ok _ hlt]
     refine ⟨_, rfl, rep_of_words _ _ (by simp [hlen]) (fun q x hx j hj => ?_)⟩
@@ -220,9 +222,9 @@ theorem flipAll_rep {N k : Nat} {ws : Words k} {f : Spec.Bits} (hN : 0 < N) (h :
       simp [Spec.flipAll, hj, this]
 
 /-- `operator~` -/
-theorem not_rep {N k : Nat} {ws : Words k} {f : Spec.Bits} (hN : 0 < N) (h : Rep N k ws f) :
+theorem not_rep {N k : Nat} {ws : Words k} {f : Spec.Bits} (h : Rep N k ws f) :
     ∃ ws', C17.not N ws = .ok ws' ∧ Rep N k ws' (Spec.flipAll f) := by
-  exact flipAll_rep hN h
+  exact flipAll_rep h
 
 /-! ## `&=`, `|=`, `^=` -/
 
@@ -324,12 +326,13 @@ theorem count_eq' {N k : Nat} {ws : Words k} {f : Spec.Bits} (h : Rep N k ws f) 
   count_eq h
 
 /-- `all()` -/
-theorem all_eq {N k : Nat} {ws : Words k} {f : Spec.Bits} (hN : 0 < N) (h : Rep N k ws f) :
+theorem all_eq {N k : Nat} {ws : Words k} {f : Spec.Bits} (h : Rep N k ws f) :
     all N ws = .ok (Spec.all N f) := by
-  have hnw := numWords_pos N k hN
   have hlen := h.len
   by_cases hp : hasPadding N k = true
-  · obtain ⟨m, hm, hmb⟩ := paddingMaskInv_spec N k hN
+  · have hN := pos_of_hasPadding hp
+    have hnw := numWords_pos N k hN
+    obtain ⟨m, hm, hmb⟩ := paddingMaskInv_spec N k hN
     have hne : ws.length ≠ 0 := by omega
     have hlt : numWords N k - 1 < ws.length := by omega
     simp only [all, hp, if_true, hne, if_false, rd_ok hlt, hm, ok_bind]
@@ -492,6 +495,30 @@ theorem fromCstr_rep (N k : Nat) (buf : List Nat) (n zeroCh oneCh : Nat) (hn : n
       simp [List.take_take]
     simp only [Spec.ofString, e']
 
+/-! ## calls with defaulted trailing arguments -/
+
+/-- `set(pos)`: the value defaults to `true` -/
+theorem setD_rep {N k : Nat} {ws : Words k} {f : Spec.Bits} (h : Rep N k ws f) (pos : Nat) (hp : pos < N) :
+    ∃ ws', setD N ws pos = .ok ws' ∧ Rep N k ws' (Spec.set1 f pos true) :=
+  set_rep h pos hp true
+
+/-- `bitset(str [, pos [, n [, zero [, one]]]])`: tetl's defaults (`0`, `npos`, `CharT('0')`, `CharT('1')`)
+    give what `std::bitset` specifies for its defaults -/
+theorem fromStringD_rep (N k : Nat) (str : List Nat) (pos n zeroCh oneCh : Option Nat)
+    (hpos : arg pos 0 ≤ str.length)
+    (hvalid : (usedChars N str (arg pos 0) (arg n NPOS)).all (fun c => c == arg zeroCh CH0 || c == arg oneCh CH1) = true) :
+    ∃ ws', fromStringD N k str pos n zeroCh oneCh = .ok ws' ∧
+      Rep N k ws' (Spec.ofString N str (arg pos 0) (arg n Spec.npos) (arg zeroCh Spec.ch0)) :=
+  fromString_rep N k str (arg pos 0) (arg n NPOS) (arg zeroCh CH0) (arg oneCh CH1) hpos hvalid
+
+/-- `bitset(cstr [, n [, zero [, one]]])` -/
+theorem fromCstrD_rep (N k : Nat) (buf : List Nat) (n zeroCh oneCh : Option Nat)
+    (hn : arg n NPOS = NPOS ∨ arg n NPOS ≤ buf.length)
+    (hvalid : (usedChars N buf 0 (arg n NPOS)).all (fun c => c == arg zeroCh CH0 || c == arg oneCh CH1) = true) :
+    ∃ ws', fromCstrD N k buf n zeroCh oneCh = .ok ws' ∧
+      Rep N k ws' (Spec.ofString N buf 0 (arg n Spec.npos) (arg zeroCh Spec.ch0)) :=
+  fromCstr_rep N k buf (arg n NPOS) (arg zeroCh CH0) (arg oneCh CH1) hn hvalid
+
 /-! ## histories -/
 
 /-- the documented preconditions of one operation (the generator of `checks/props/c17.py` produces
@@ -508,6 +535,13 @@ def Op.valid (N : Nat) : Op → Bool
     decide (pos ≤ str.length) && (usedChars N str pos n).all (fun c => c == zeroCh || c == oneCh)
   | .fromCstr _ buf n zeroCh oneCh =>
     (n == NPOS || decide (n ≤ buf.length)) && (usedChars N buf 0 n).all (fun c => c == zeroCh || c == oneCh)
+  | .setD _ pos => decide (pos < N)
+  | .fromStrD _ str pos n zeroCh oneCh =>
+    decide (arg pos 0 ≤ str.length) &&
+      (usedChars N str (arg pos 0) (arg n NPOS)).all (fun c => c == arg zeroCh CH0 || c == arg oneCh CH1)
+  | .fromCstrD _ buf n zeroCh oneCh =>
+    (arg n NPOS == NPOS || decide (arg n NPOS ≤ buf.length)) &&
+      (usedChars N buf 0 (arg n NPOS)).all (fun c => c == arg zeroCh CH0 || c == arg oneCh CH1)
   | _ => true
 
 /-- every live object represents its abstract counterpart -/
@@ -524,16 +558,16 @@ theorem init_storeRep (N k : Nat) : StoreRep N k (Store.init N k) Spec.Store.ini
 
 /-- one valid operation: never an error, every object still represented (padding included), and
     the abstract state moved as `std::bitset` specifies -/
-theorem step_rep {N k : Nat} (hN : 0 < N) {st : Store k} {sp : Spec.Store} (h : StoreRep N k st sp) (op : Op)
+theorem step_rep {N k : Nat} {st : Store k} {sp : Spec.Store} (h : StoreRep N k st sp) (op : Op)
     (hv : Op.valid N op = true) :
     ∃ st', step N st op = .ok st' ∧ StoreRep N k st' (Spec.step N sp op) := by
   cases op with
   | setAll o =>
-    obtain ⟨r, hs, hr⟩ := setAll_rep hN (h o)
+    obtain ⟨r, hs, hr⟩ := setAll_rep (h o)
     exact ⟨_, by simp [step, hs], put_rep h o hr⟩
   | resetAll o => exact ⟨_, by simp [step], put_rep h o (resetAll_rep (h o))⟩
   | flipAll o =>
-    obtain ⟨r, hs, hr⟩ := flipAll_rep hN (h o)
+    obtain ⟨r, hs, hr⟩ := flipAll_rep (h o)
     exact ⟨_, by simp [step, hs], put_rep h o hr⟩
   | set o pos v =>
     obtain ⟨r, hs, hr⟩ := set_rep (h o) pos (by simpa [Op.valid] using hv) v
@@ -575,7 +609,7 @@ theorem step_rep {N k : Nat} (hN : 0 < N) {st : Store k} {sp : Spec.Store} (h : 
     exact ⟨_, by simp [step, hs], put_rep h o hr⟩
   | assign o src => exact ⟨_, by simp [step], put_rep h o (h src)⟩
   | not o src =>
-    obtain ⟨r, hs, hr⟩ := not_rep hN (h src)
+    obtain ⟨r, hs, hr⟩ := not_rep (h src)
     exact ⟨_, by simp [step, hs], put_rep h o hr⟩
   | fromUll o v =>
     obtain ⟨r, hs, hr⟩ := fromUll_rep N k v (by simpa [Op.valid] using hv)
@@ -588,24 +622,35 @@ theorem step_rep {N k : Nat} (hN : 0 < N) {st : Store k} {sp : Spec.Store} (h : 
     simp only [Op.valid, Bool.and_eq_true, Bool.or_eq_true, beq_iff_eq, decide_eq_true_eq] at hv
     obtain ⟨r, hs, hr⟩ := fromCstr_rep N k buf n zeroCh oneCh hv.1 hv.2
     exact ⟨_, by simp [step, hs], put_rep h o hr⟩
+  | setD o pos =>
+    obtain ⟨r, hs, hr⟩ := setD_rep (h o) pos (by simpa [Op.valid] using hv)
+    exact ⟨_, by simp [step, hs], put_rep h o hr⟩
+  | fromStrD o str pos n zeroCh oneCh =>
+    simp only [Op.valid, Bool.and_eq_true, decide_eq_true_eq] at hv
+    obtain ⟨r, hs, hr⟩ := fromStringD_rep N k str pos n zeroCh oneCh hv.1 hv.2
+    exact ⟨_, by simp [step, hs], put_rep h o hr⟩
+  | fromCstrD o buf n zeroCh oneCh =>
+    simp only [Op.valid, Bool.and_eq_true, Bool.or_eq_true, beq_iff_eq, decide_eq_true_eq] at hv
+    obtain ⟨r, hs, hr⟩ := fromCstrD_rep N k buf n zeroCh oneCh hv.1 hv.2
+    exact ⟨_, by simp [step, hs], put_rep h o hr⟩
 
-/-- **Main theorem.** For every width `N ≥ 1`, every word size `2^k` and every history of valid
+/-- **Main theorem.** For every width `N` (0 included), every word size `2^k` and every history of valid
     operations, of any length, starting from any represented store: the model never returns an error
     and every object of the final store represents the corresponding object of the `std::bitset`
     specification run on the same history. -/
-theorem run_refines {N k : Nat} (hN : 0 < N) : ∀ (ops : List Op) {st : Store k} {sp : Spec.Store},
+theorem run_refines {N k : Nat} : ∀ (ops : List Op) {st : Store k} {sp : Spec.Store},
     StoreRep N k st sp → (∀ op, op ∈ ops → Op.valid N op = true) →
     ∃ st', run N st ops = .ok st' ∧ StoreRep N k st' (Spec.run N sp ops)
   | [], st, _, h, _ => ⟨st, rfl, h⟩
   | op :: ops, st, sp, h, hv => by
-    obtain ⟨st1, hs1, hr1⟩ := step_rep hN h op (hv op (List.mem_cons_self))
-    obtain ⟨st', hs', hr'⟩ := run_refines hN ops hr1 (fun o ho => hv o (List.mem_cons_of_mem _ ho))
+    obtain ⟨st1, hs1, hr1⟩ := step_rep h op (hv op (List.mem_cons_self))
+    obtain ⟨st', hs', hr'⟩ := run_refines ops hr1 (fun o ho => hv o (List.mem_cons_of_mem _ ho))
     exact ⟨st', by simp [run, hs1, hs'], hr'⟩
 
 /-- histories from default-constructed objects -/
-theorem run_refines_init {N k : Nat} (hN : 0 < N) (ops : List Op) (hv : ∀ op, op ∈ ops → Op.valid N op = true) :
+theorem run_refines_init {N k : Nat} (ops : List Op) (hv : ∀ op, op ∈ ops → Op.valid N op = true) :
     ∃ st', run N (Store.init N k) ops = .ok st' ∧ StoreRep N k st' (Spec.run N Spec.Store.init ops) :=
-  run_refines hN ops (init_storeRep N k) hv
+  run_refines ops (init_storeRep N k) hv
 
 /-- non-vacuity: a history that crosses a word boundary with whole-set and single-bit operations -/
 example : (∀ op, op ∈ [Op.setAll 0, .flip 0 64, .fromUll 1 5, .xorA 0 1, .fromStr 2 [49, 48] 0 NPOS 48 49] →
@@ -613,13 +658,19 @@ example : (∀ op, op ∈ [Op.setAll 0, .flip 0 64, .fromUll 1 5, .xorA 0 1, .fr
 
 /-- **Padding invariant over histories.** After any valid history the high `padding` bits of the last
     storage word of every object are zero (and the array has exactly `num_words` words). -/
-theorem padding_inv_history {N k : Nat} (hN : 0 < N) (ops : List Op)
+theorem padding_inv_history {N k : Nat} (ops : List Op)
     (hv : ∀ op, op ∈ ops → Op.valid N op = true) :
     ∃ st', run N (Store.init N k) ops = .ok st' ∧ ∀ o, (st' o).length = numWords N k ∧
       ∀ (hl : numWords N k - 1 < (st' o).length) (j : Nat), 2 ^ k - padding N k ≤ j → j < 2 ^ k →
         (st' o)[numWords N k - 1].getLsbD j = false := by
-  obtain ⟨st', hs, hr⟩ := run_refines_init (k := k) hN ops hv
+  obtain ⟨st', hs, hr⟩ := run_refines_init (k := k) ops hv
   refine ⟨st', hs, fun o => ⟨(hr o).len, fun hl j hj1 hj2 => ?_⟩⟩
+  have hN : 0 < N := by
+    rcases Nat.eq_zero_or_pos N with h0 | h0
+    · have := (hr o).len
+      rw [h0, numWords_zero] at this
+      omega
+    · exact h0
   rw [(hr o).word _ hl j hj2]
   have := last_pos_lt (N := N) (k := k) hN hj2
   have hnot : ¬ (numWords N k - 1) * 2 ^ k + j < N := by rw [this]; omega
@@ -627,7 +678,7 @@ theorem padding_inv_history {N k : Nat} (hN : 0 < N) (ops : List Op)
 
 /-- **Observers after a history** equal those of the specification: `test`/`operator[]`, `count`,
     `all`, `any`, `none`, `==`. -/
-theorem run_observers {N k : Nat} (hN : 0 < N) (ops : List Op) (hv : ∀ op, op ∈ ops → Op.valid N op = true) :
+theorem run_observers {N k : Nat} (ops : List Op) (hv : ∀ op, op ∈ ops → Op.valid N op = true) :
     ∃ st', run N (Store.init N k) ops = .ok st' ∧ ∀ o,
       let f := Spec.run N Spec.Store.init ops o
       (∀ pos, pos < N → test N (st' o) pos = .ok (Spec.test f pos) ∧ getConst N (st' o) pos = .ok (Spec.test f pos)
@@ -635,9 +686,9 @@ theorem run_observers {N k : Nat} (hN : 0 < N) (ops : List Op) (hv : ∀ op, op 
       count (st' o) = Spec.count N f ∧ all N (st' o) = .ok (Spec.all N f) ∧ any (st' o) = Spec.any N f ∧
       none (st' o) = Spec.none N f ∧
       ∀ o2, eq (st' o) (st' o2) = Spec.eq N f (Spec.run N Spec.Store.init ops o2) := by
-  obtain ⟨st', hs, hr⟩ := run_refines_init (k := k) hN ops hv
+  obtain ⟨st', hs, hr⟩ := run_refines_init (k := k) ops hv
   refine ⟨st', hs, fun o => ⟨fun pos hp => ⟨test_eq (hr o) pos hp, getConst_eq (hr o) pos hp, refGet_eq (hr o) pos hp⟩,
-    count_eq' (hr o), all_eq hN (hr o), any_eq (hr o), none_eq (hr o), fun o2 => eq_eq (hr o) (hr o2)⟩⟩
+    count_eq' (hr o), all_eq (hr o), any_eq (hr o), none_eq (hr o), fun o2 => eq_eq (hr o) (hr o2)⟩⟩
 
 /-! ## to_ulong / to_ullong -/
 
@@ -714,15 +765,52 @@ theorem toUnsignedLoop_spec {N k : Nat} {ws : Words k} {f : Spec.Bits} (h : Rep 
     have : (j < i + 1 + n) = (j < i + (n + 1)) := by apply propext; omega
     simp only [this]
 
-/-- `to_ulong()` / `to_ullong()` for `Bits <= 64` (the only widths for which the members exist):
-    the value is Σ 2^i over the set bits.  Partial: the hypothesis `N ≤ 64` is exactly the class of
-    the known finding F-C17-to-ullong-wide-absent. -/
-theorem toUnsigned_partial {N k : Nat} {ws : Words k} {f : Spec.Bits} (h : Rep N k ws f) (h64 : N ≤ 64) :
-    toUnsigned N ws = some (.ok (Spec.toNat N f)) := by
+/-- the contract loop: passes iff no bit of `[i, i + n)` is set -/
+theorem fitsLoop_spec {N k : Nat} {ws : Words k} {f : Spec.Bits} (h : Rep N k ws f) :
+    ∀ (n i : Nat), i + n ≤ N →
+      fitsLoop N ws n i = if (List.range' i n).any f then
+        .error (.pre "to_ulong/to_ullong: no bit beyond the digits of the result type is set") else .ok ()
+  | 0, i, _ => by simp [fitsLoop]
+  | n + 1, i, hle => by
+    have ht := test_eq h i (by omega)
+    have ih := fitsLoop_spec h n (i + 1) (by omega)
+    simp only [fitsLoop, ht, ok_bind, Spec.test, List.range'_succ, List.any_cons]
+    cases hf : f i
+    · simp only [Bool.false_eq_true, if_false, Bool.false_or, ih]
+    · simp
+
+/-- the value fits in 64 bits iff no bit at a position `>= 64` is set -/
+theorem toNat_lt_iff (N : Nat) (f : Spec.Bits) :
+    Spec.toNat N f < 2 ^ 64 ↔ (List.range' (min N 64) (N - min N 64)).any f = false := by
+  have hb := (sumBits_spec f N).2
+  rw [List.any_eq_false]
+  constructor
+  · intro hlt j hj
+    rw [List.mem_range'_1] at hj
+    have h1 : (Spec.toNat N f).testBit j = false :=
+      Nat.testBit_lt_two_pow (Nat.lt_of_lt_of_le hlt (Nat.pow_le_pow_right (by decide) (by omega)))
+    rw [hb j] at h1
+    have hjN : j < N := by omega
+    simpa [hjN] using h1
+  · intro hz
+    apply Nat.lt_pow_two_of_testBit
+    intro j hj
+    rw [hb j]
+    by_cases hjN : j < N
+    · have := hz j (by rw [List.mem_range'_1]; omega)
+      simp [hjN, this]
+    · simp [hjN]
+
+/-- **`to_ulong()` / `to_ullong()`, every width.**  When the value of the bitset fits in 64 bits
+    (`std::bitset`: no `overflow_error`) the member returns it: Σ 2^i over the set bits.  For
+    `Bits <= 64` the hypothesis always holds (`toUnsigned_narrow`). -/
+theorem toUnsigned_eq {N k : Nat} {ws : Words k} {f : Spec.Bits} (h : Rep N k ws f) (hfit : Spec.toNat N f < 2 ^ 64) :
+    toUnsigned N ws = .ok (Spec.toNat N f) := by
   obtain ⟨r, hs, hr⟩ := toUnsignedLoop_spec h (min N 64) 0 (0#(2 ^ 6)) (by omega) (by omega) (by simp)
-  have hge : 64 ≥ N := h64
-  simp only [toUnsigned, hge, if_true, hs, ok_bind]
-  congr 2
+  have hfl := fitsLoop_spec h (N - min N 64) (min N 64) (by omega)
+  rw [(toNat_lt_iff N f).mp hfit] at hfl
+  simp only [toUnsigned, hfl, Bool.false_eq_true, if_false, ok_bind, hs]
+  congr 1
   apply Nat.eq_of_testBit_eq
   intro j
   rw [BitVec.testBit_toNat, (sumBits_spec f N).2 j]
@@ -730,50 +818,60 @@ theorem toUnsigned_partial {N k : Nat} {ws : Words k} {f : Spec.Bits} (h : Rep N
   · rw [hr j hj]
     have : (j < 0 + min N 64) = (j < N) := by apply propext; omega
     simp only [this]
-  · have : ¬ j < N := by omega
-    rw [BitVec.getLsbD_of_ge _ _ (by simpa using hj)]; simp [this]
+  · rw [BitVec.getLsbD_of_ge _ _ (by simpa using hj)]
+    by_cases hjN : j < N
+    · have h1 : (Spec.toNat N f).testBit j = false :=
+        Nat.testBit_lt_two_pow (Nat.lt_of_lt_of_le hfit (Nat.pow_le_pow_right (by decide) (by omega)))
+      rw [(sumBits_spec f N).2 j] at h1
+      exact h1.symm
+    · simp [hjN]
 
-example : Rep 9 6 (init 9 6) Spec.zero ∧ 9 ≤ 64 := ⟨init_rep 9 6, by decide⟩
+/-- the other half: when the value does not fit (`std::bitset` throws `overflow_error`) the member's
+    contract fails — it never returns a truncated value under checked contracts -/
+theorem toUnsigned_overflow {N k : Nat} {ws : Words k} {f : Spec.Bits} (h : Rep N k ws f)
+    (hbig : 2 ^ 64 ≤ Spec.toNat N f) :
+    toUnsigned N ws = .error (.pre "to_ulong/to_ullong: no bit beyond the digits of the result type is set") := by
+  have hfl := fitsLoop_spec h (N - min N 64) (min N 64) (by omega)
+  have hany : (List.range' (min N 64) (N - min N 64)).any f = true := by
+    cases hc : (List.range' (min N 64) (N - min N 64)).any f
+    · have := (toNat_lt_iff N f).mpr hc
+      omega
+    · rfl
+  rw [hany] at hfl
+  simp only [toUnsigned, hfl, if_true, error_bind]
 
-/-- the excluded class contains a failing input: for `Bits = 65` the member does not exist, while
-    `std::bitset<65>{5}.to_ullong()` is 5 -/
-theorem toUnsigned_counterexample : toUnsigned 65 (init 65 6) = Option.none ∧ Spec.toNat 65 (Spec.ofNat 5) = 5 := by
-  decide
+/-- `to_ulong()` / `to_ullong()` for `Bits <= 64`: no precondition at all (the statement of the former
+    `toUnsigned_partial`, now a corollary) -/
+theorem toUnsigned_narrow {N k : Nat} {ws : Words k} {f : Spec.Bits} (h : Rep N k ws f) (h64 : N ≤ 64) :
+    toUnsigned N ws = .ok (Spec.toNat N f) :=
+  toUnsigned_eq h (Nat.lt_of_lt_of_le (sumBits_spec f N).1 (Nat.pow_le_pow_right (by decide) h64))
 
 /-! ## to_string -/
 
 theorem toStrLoop_spec {N k : Nat} {ws : Words k} {f : Spec.Bits} (h : Rep N k ws f) (zeroCh oneCh cap : Nat) :
-    ∀ (i : Nat) (acc : List Nat), i < N → acc.length + i ≤ cap →
+    ∀ (i : Nat) (acc : List Nat), i ≤ N → acc.length + i ≤ cap →
       toStrLoop N ws zeroCh oneCh cap i acc =
-        .ok (acc ++ (List.range' 1 i).reverse.map (fun j => if f j then oneCh else zeroCh))
+        .ok (acc ++ (List.range i).reverse.map (fun j => if f j then oneCh else zeroCh))
   | 0, acc, _, _ => by simp [toStrLoop]
   | i + 1, acc, hi, hc => by
-    have ht := test_eq h (i + 1) hi
+    have ht := test_eq h i (by omega)
     have hl : acc.length < cap := by omega
-    have ih := toStrLoop_spec h zeroCh oneCh cap i (acc ++ [if f (i + 1) then oneCh else zeroCh]) (by omega)
+    have ih := toStrLoop_spec h zeroCh oneCh cap i (acc ++ [if f i then oneCh else zeroCh]) (by omega)
       (by simp; omega)
     simp only [toStrLoop, ht, ok_bind, hl, if_true, Spec.test, ih]
-    rw [List.range'_concat, List.reverse_append]
-    simp [Nat.add_comm]
+    rw [List.range_succ, List.reverse_append]
+    simp
 
-/-- `to_string<Capacity>(zero, one)` for `Capacity >= Bits >= 1`: character 0 is bit `N-1`, the last
-    character is bit 0, no `push_back` beyond the capacity -/
-theorem toStr_eq {N k : Nat} {ws : Words k} {f : Spec.Bits} (hN : 0 < N) (h : Rep N k ws f) (zeroCh oneCh cap : Nat)
+/-- `to_string<Capacity, CharT>(zero, one)` for `Capacity >= Bits` (`Bits = 0`: the empty string):
+    character 0 is bit `N-1`, the last character is bit 0, no `push_back` beyond the capacity -/
+theorem toStr_eq {N k : Nat} {ws : Words k} {f : Spec.Bits} (h : Rep N k ws f) (zeroCh oneCh cap : Nat)
     (hcap : N ≤ cap) : toStr N ws zeroCh oneCh cap = .ok (Spec.toStr N f zeroCh oneCh) := by
-  have hN0 : ¬ N = 0 := by omega
-  have hl := toStrLoop_spec h zeroCh oneCh cap (N - 1) [] (by omega) (by simp; omega)
-  have ht := test_eq h 0 hN
-  have hlen : ((List.range' 1 (N - 1)).reverse.map (fun j => if f j then oneCh else zeroCh)).length < cap := by
-    simp; omega
-  simp only [toStr, hN0, if_false, hl, ok_bind, ht, List.nil_append, hlen, if_true, Spec.test, Spec.toStr]
-  congr 1
-  have e : List.range N = 0 :: List.range' 1 (N - 1) := by
-    rw [List.range_eq_range']
-    have : N = (N - 1) + 1 := by omega
-    conv => lhs; rw [this]
-    rw [List.range'_succ]
-  rw [e, List.reverse_cons, List.map_append]
-  simp
+  have hl := toStrLoop_spec h zeroCh oneCh cap N [] (Nat.le_refl _) (by simp; omega)
+  simp only [toStr, hl, List.nil_append, Spec.toStr]
 
+/-- `to_string<Capacity, CharT>()` / `to_string<Capacity, CharT>(zero)`: the defaulted characters -/
+theorem toStrD_eq {N k : Nat} {ws : Words k} {f : Spec.Bits} (h : Rep N k ws f) (zeroCh oneCh : Option Nat)
+    (cap : Nat) (hcap : N ≤ cap) : toStrD N ws zeroCh oneCh cap = .ok (Spec.toStrD N f zeroCh oneCh) :=
+  toStr_eq h (arg zeroCh CH0) (arg oneCh CH1) cap hcap
 
 end Tetl.C17.Members
